@@ -88,3 +88,83 @@ func TestSubsetParser(t *testing.T) {
 		}
 	}
 }
+
+// Behaviour-preserving rewrites of a .proto give the same fact tables: reordered
+// imports / options / top-level and nested definitions, comments, optional
+// trailing semicolons, fully-qualified vs relative names, explicit defaults
+// (deprecated = false, packed = true in proto3, json_name spelled out), string
+// escapes and split literals.
+func TestEquivalentSpellings(t *testing.T) {
+	a := `syntax = "proto3";
+package a.b;
+import "google/api/annotations.proto";
+import "google/protobuf/timestamp.proto";
+option go_package = "x/y";
+service S {
+  rpc Get(Req) returns (Resp) { option (google.api.http) = { get: "/b/{name}" }; }
+}
+enum E { E_ZERO = 0; ONE = 1; }
+message Req {
+  string name = 1;
+  repeated int32 nums = 2;
+  E e = 3;
+  google.protobuf.Timestamp at = 4;
+  message Inner { E e = 1; }
+  Inner inner = 5;
+}
+message Resp { Req.Inner first_inner = 1; }
+`
+	b := `// reflowed
+// comment
+syntax = 'proto3';
+option go_package = "x" "/y"; /* moved up */
+package a.b;;
+import 'google/protobuf/timestamp.proto';
+import "google/api/annotations.proto";
+message Resp { .a.b.Req.Inner first_inner = 1 [json_name = "firstInner"]; };
+message Req {
+  Inner inner = 5;
+  message Inner { .a.b.E e = 0x1 [deprecated = false]; }
+  .google.protobuf.Timestamp at = 4;
+  b.E e = 3;
+  repeated int32 nums = 2 [packed = true];
+  string name = 1 [json_name = "n\141me"];
+}
+enum E { E_ZERO = 0; ONE = 1; }
+service S {
+  rpc Get(.a.b.Req) returns (a.b.Resp) { option (google.api.http) = { get: "/b/\x7bname}", }; };
+}
+`
+	da, err := descFromSource(a)
+	if err != nil {
+		t.Fatal(err)
+	}
+	db, err := descFromSource(b)
+	if err != nil {
+		t.Fatal(err)
+	}
+	ka, kb := kvDesc(da), kvDesc(db)
+	if len(ka) != len(kb) {
+		t.Fatalf("%d facts vs %d", len(ka), len(kb))
+	}
+	for i := range ka {
+		if ka[i] != kb[i] {
+			t.Errorf("fact %d: %v vs %v", i, ka[i], kb[i])
+		}
+	}
+	// and a semantic change is a different table
+	c := strings.Replace(a, "string name = 1;", "string name = 6;", 1)
+	dc, err := descFromSource(c)
+	if err != nil {
+		t.Fatal(err)
+	}
+	same := true
+	for i, kv := range kvDesc(dc) {
+		if kv != ka[i] {
+			same = false
+		}
+	}
+	if same {
+		t.Error("field number change not visible")
+	}
+}
